@@ -106,6 +106,8 @@ class New(Op):
         for f, ls in (op.get("kids") or {}).items():
             for l in ls:
                 out.append((l, FIELDS[op["kind"]][f]))
+        for f, q in (op.get("kids_from") or {}).items():
+            out.append((q, (op["kind"],)))
         a = op.get("attrs") or {}
         if a.get("entry_point"):
             out.append((a["entry_point"], ("cb",)))
@@ -124,12 +126,26 @@ class New(Op):
                 n = w.m.nodes.get(l)
                 if n is not None and n.parent:
                     t.append(n.parent)
+        for f, q in (op.get("kids_from") or {}).items():
+            t.append(q)
+        if op["label"] in w.m.nodes:
+            t.extend(w.m.kids(op["label"]))
         return t
+
+    def _all_kids(self, w, op):
+        """{field: [labels]} including everything owned by a collection passed whole."""
+        out = {f: list(ls) for f, ls in (op.get("kids") or {}).items()}
+        for f, q in (op.get("kids_from") or {}).items():
+            out.setdefault(f, [])
+            out[f] += [l for l in w.m.kids(q, f) if l not in out[f]]
+        return out
 
     def ready(self, w, op):
         if op["label"] in w.m.nodes:
             return False
-        kids = [l for ls in (op.get("kids") or {}).values() for l in ls]
+        if op.get("kids_from") and op.get("kids") and set(op["kids_from"]) & set(op["kids"]):
+            return False
+        kids = [l for ls in self._all_kids(w, op).values() for l in ls]
         if len(set(kids)) != len(kids):
             return False
         par = op.get("parent")
@@ -191,6 +207,8 @@ class New(Op):
             objs = [w.objs[l] for l in ls]
             style = op.get("kids_style", "list")
             kw[f] = iter(objs) if style == "iter" else (tuple(objs) if style == "tuple" else objs)
+        for f, q in (op.get("kids_from") or {}).items():
+            kw[f] = getattr(w.objs[q], f)  # the other owner's collection itself
         cls = w.kind_cls[kind]
         out = capture(lambda: cls(**kw))
         if out.kind == "ok":
@@ -231,8 +249,11 @@ class New(Op):
             return Exp("ok", value="created", owner=OWN)
         obj = out.raw
         label = op["label"]
+        allk = self._all_kids(w, op)
         w.register(label, obj, MNode(label, kind, obj.uuid.int, None, a))
-        for f, ls in (op.get("kids") or {}).items():
+        if op.get("kids_from"):
+            w.counters["probe:bulk_move_from_other_collection"] += 1
+        for f, ls in allk.items():
             for l in ls:
                 w.m.set_parent(l, label)
         if op.get("parent"):
